@@ -577,14 +577,14 @@ def c05(ctx):
                          "adaptation_field_length values x flags bytes (every 5th quick / all 256 thorough) x first optional length byte in {0,1,183,255}) plus random packets; for each parser well-formed "
                          "vectors of every format and their near misses (truncation at every (quick: strided) length, every leading byte set to 0/1/v-1/v+1/0x7F/0x80/0xFF, bit flips, extensions, the "
                          "vectors of the other formats, empty, random and 'structural' short strings); descriptors of every tag with bodies 0..6; packet streams (PAT+PMT+foreign) cut and corrupted the "
-                         "same way. Every recorded execution is judged by TLC against Totality (outcome in {value,error}, read-only inputs untouched, allocation <= 2 MiB + 4096 x input length, growth of the goroutine stack <= 1 MiB + 16 x input length; a worker ended by a "
+                         "same way. Every recorded execution is judged by TLC against Totality (outcome in {value,error}, read-only inputs untouched, allocation <= 2 MiB + 4096 x input length (what printing the returned object allocates is accounted apart, <= 256 MiB + 4096 x), growth of the goroutine stack <= 1 MiB + 16 x input length; a worker ended by a "
                          "fatal runtime error - stack overflow, out of memory - that shows again in a fresh worker is the library's failure). Stream readers also see 1 MiB / 16 MiB streams given as a repeated unit "
                          "(sync bytes only, reserved-PID headers, zeros, null packets, continuation packets). "
                          "In addition Go's coverage-guided fuzzer (FuzzC05, thorough tier only, 240 s, fresh corpus each run) chooses inputs for the same entry points; every input it reports and its whole "
                          "corpus are executed again by the monitored worker and judged the same way. class = (entry point, input source, length bucket, outcome)",
                     trace_module="Trace_C05", sigfn=c05_sig,
                     assumptions=["level is exploration: a TLA+ model cannot observe Go panics/loops; the specification supplies the contract and the structure of the input space",
-                                 "hang = no result within 4 s in the worker; oom = live heap above 512 MB", "'a small multiple of the input size' is read as 4096 x for heap allocation (getters, printers and re-encoders run inside the call) and 16 x for stack depth", "parsers are read-only with respect to the caller's buffer, including the printing and re-encoding of the returned object"])
+                                 "hang = no result within 4 s in the worker; oom = live heap above 512 MB", "'a small multiple of the input size' is read as 2 MiB + 4096 x for heap allocation (getters and re-encoders run inside the call; printing is only required not to panic and is accounted apart - String() of 255 components allocates 32 MB by repeated concatenation while holding 25 KB), 512 MB for the live heap, and 16 x for stack depth", "parsers are read-only with respect to the caller's buffer, including the printing and re-encoding of the returned object"])
 
 
 # ---------------------------------------------------------------- X01 (spec growth, not a listed property)
